@@ -26,7 +26,14 @@ import (
 	"sync"
 	"testing"
 
+	"github.com/ethereum/go-ethereum/common"
+	"github.com/ethereum/go-ethereum/core/state"
+	"github.com/ethereum/go-ethereum/core/tracing"
+	"github.com/ethereum/go-ethereum/core/types"
+	"github.com/ethereum/go-ethereum/crypto"
 	"github.com/ethereum/go-ethereum/internal/verif/mc"
+	"github.com/ethereum/go-ethereum/params"
+	"github.com/holiman/uint256"
 )
 
 const c31MaxDepth = 4
@@ -633,7 +640,12 @@ func TestVerif_C31(t *testing.T) {
 			"Forward(x) for every x <= ExecutionGas (+ForwardAll, +CALL-style forwarding), Exit{Success,Revert,Halt}(+Exit(err)) followed by Absorb " +
 			"into the caller (at depth 1: terminal transaction-level check); all reachable states are expanded once (de-duplicated on all " +
 			"implementation fields and entry values of all frames); distinct = distinct states; plus a boundary grid of Charge/CanAfford/" +
-			"RefundState/exits on values up to 2^63-1 against exact (math/big) arithmetic")
+			"RefundState/exits on values up to 2^63-1 against exact (math/big) arithmetic; plus real interpreter frames under Amsterdam rules: " +
+			"programs = sequences of <=2 units (thorough <=3; quick additionally every 2-unit history followed by each failing creation) over 17 units " +
+			"(SSTORE set/clear on 2 slots directly and via DELEGATECALL, CREATE/CREATE2 succeeding, init reverting, init halting, colliding, " +
+			"insufficient balance, value CALL to a new account, CALL to a callee that charges state gas and reverts/halts) x ending {STOP, REVERT, INVALID} " +
+			"x initial budget E{ample, 600k(, 300k)} x reservoir {0, half an account charge(, one charge), 500k}: leftover of EVM.Call vs the conservation, " +
+			"reservoir and exit identities and (ample gas) a reference for the net state gas")
 		r.Bound("configs_N_initial_K_cost_D_frames", fmt.Sprint(cfgs))
 		r.Assume("gas quantities are at most 2^63-1 (block gas limit bound params.MaxGasLimit), so int64(UsedStateGas) conversions are exact")
 		r.Assume("RefundState(r) is only issued for state gas charged earlier in the same transaction by a frame whose effects are still live " +
@@ -658,6 +670,7 @@ func TestVerif_C31(t *testing.T) {
 				return
 			}
 			c31Bounds(r)
+			c31Frames(r)
 			return
 		}
 
@@ -665,6 +678,9 @@ func TestVerif_C31(t *testing.T) {
 
 		for _, cfg := range cfgs {
 			c31BFS(r, fmt.Sprintf("N%dK%dD%d", cfg.N, cfg.K, cfg.D), cfg.N, cfg.K, cfg.D)
+		}
+		if !r.Expired() {
+			c31Frames(r)
 		}
 	})
 }
@@ -825,4 +841,311 @@ func c31BFS(r *mc.R, tag string, maxInit, maxCost, maxDepth int) {
 			r.NotExhaustive("bfs stopped early")
 		}
 	}
+}
+
+// ---------------------------------------------------------------------------
+// Real interpreter frames under Amsterdam (EIP-8037) rules: programs composed of state-gas relevant units are run
+// through EVM.Call with a two-dimensional budget; the leftover budget of the frame must satisfy the statement.
+
+var (
+	c31Self     = common.HexToAddress("0x5e1f000000000000000000000000000000000031")
+	c31ChildRev = common.HexToAddress("0xc411d00000000000000000000000000000000001")
+	c31ChildInv = common.HexToAddress("0xc411d00000000000000000000000000000000002")
+	c31ChildClr = common.HexToAddress("0xc411d00000000000000000000000000000000003")
+	c31ChildSet = common.HexToAddress("0xc411d00000000000000000000000000000000004")
+	c31Fresh    = common.HexToAddress("0xf4e5000000000000000000000000000000000031")
+
+	c31InitOK     = []byte{0x60, 0x03, 0x60, 0x00, 0xf3} // deploys 3 zero bytes
+	c31InitRevert = []byte{0x60, 0x00, 0x60, 0x00, 0xfd}
+	c31InitHalt   = []byte{0xfe}
+
+	c31StateAccount = uint64(params.AccountCreationSize * params.CostPerStateByte)
+	c31StateSlot    = uint64(params.StorageCreationSize * params.CostPerStateByte)
+)
+
+const c31CollisionSalt = 7
+
+type c31Unit struct {
+	name string
+	code []byte
+	kind string // model class
+	arg  int
+}
+
+func c31CreateCode(init []byte, create2 bool, salt, value byte) []byte {
+	word := make([]byte, 32)
+	copy(word[32-len(init):], init)
+	off, sz := byte(32-len(init)), byte(len(init))
+	b := append([]byte{0x7f}, word...)
+	b = append(b, 0x60, 0x00, 0x52)
+	if create2 {
+		b = append(b, 0x60, salt, 0x60, sz, 0x60, off, 0x60, value, 0xf5)
+	} else {
+		b = append(b, 0x60, sz, 0x60, off, 0x60, value, 0xf0)
+	}
+	return append(b, 0x50) // POP
+}
+
+func c31CallCode(op byte, to common.Address, value byte, gas uint32) []byte {
+	b := []byte{0x60, 0, 0x60, 0, 0x60, 0, 0x60, 0}
+	if op == 0xf1 {
+		b = append(b, 0x60, value)
+	}
+	b = append(b, 0x73)
+	b = append(b, to.Bytes()...)
+	if gas == 0 {
+		b = append(b, 0x5a)
+	} else {
+		b = append(b, 0x62, byte(gas>>16), byte(gas>>8), byte(gas))
+	}
+	return append(b, op, 0x50)
+}
+
+func c31Units() []c31Unit {
+	sstore := func(k, v byte) []byte { return []byte{0x60, v, 0x60, k, 0x55} }
+	return []c31Unit{
+		{"sstore-set-1", sstore(1, 1), "set", 1},
+		{"sstore-clear-1", sstore(1, 0), "clr", 1},
+		{"sstore-set-2", sstore(2, 1), "set", 2},
+		{"create-ok", c31CreateCode(c31InitOK, false, 0, 0), "create-ok", 0},
+		{"create-init-reverts", c31CreateCode(c31InitRevert, false, 0, 0), "create-fail", 0},
+		{"create-init-halts", c31CreateCode(c31InitHalt, false, 0, 0), "create-fail", 0},
+		{"create-insufficient-balance", c31CreateCode(c31InitOK, false, 0, 9), "create-nobalance", 0},
+		{"create2-ok", c31CreateCode(c31InitOK, true, 1, 0), "create2-ok", 0},
+		{"create2-init-reverts", c31CreateCode(c31InitRevert, true, 2, 0), "create-fail", 0},
+		{"create2-init-halts", c31CreateCode(c31InitHalt, true, 3, 0), "create-fail", 0},
+		{"create2-collision", c31CreateCode(c31InitOK, true, c31CollisionSalt, 0), "create-fail", 0},
+		{"create2-insufficient-balance", c31CreateCode(c31InitOK, true, 4, 9), "create-nobalance", 0},
+		{"call-value-new-account", c31CallCode(0xf1, c31Fresh, 1, 0), "call-new", 0},
+		{"call-child-sstore-reverts", c31CallCode(0xf1, c31ChildRev, 0, 300_000), "nop", 0},
+		{"call-child-sstore-halts", c31CallCode(0xf1, c31ChildInv, 0, 300_000), "nop", 0},
+		{"delegatecall-clear-1", c31CallCode(0xf4, c31ChildClr, 0, 0), "clr", 1},
+		{"delegatecall-set-2", c31CallCode(0xf4, c31ChildSet, 0, 0), "set", 2},
+	}
+}
+
+// c31Expect is the reference for the net state gas of a program that runs to completion: storage creation is charged when a
+// slot that was empty at transaction start becomes non-zero and refilled when it is cleared again; a new account is charged
+// when a CREATE/CREATE2/value-CALL brings an EIP-161-empty account to life, plus the deployed code bytes; failed creations
+// (init reverts/halts, collision, insufficient balance) and reverted or halted callees leave nothing.
+func c31Expect(seq []c31Unit) int64 {
+	var (
+		total   int64
+		slots   = map[int]bool{}
+		nonce   = 1 // the CREATE address for nonce 1 is occupied (collision)
+		made2   = false
+		madeNew = false
+	)
+	for _, u := range seq {
+		switch u.kind {
+		case "set":
+			if !slots[u.arg] {
+				slots[u.arg] = true
+				total += int64(c31StateSlot)
+			}
+		case "clr":
+			if slots[u.arg] {
+				slots[u.arg] = false
+				total -= int64(c31StateSlot)
+			}
+		case "create-ok":
+			if nonce != 1 {
+				total += int64(c31StateAccount + 3*params.CostPerStateByte)
+			}
+			nonce++
+		case "create2-ok":
+			if !made2 {
+				made2 = true
+				total += int64(c31StateAccount + 3*params.CostPerStateByte)
+			}
+			nonce++
+		case "create-fail":
+			nonce++
+		case "create-nobalance":
+		case "call-new":
+			if !madeNew {
+				madeNew = true
+				total += int64(c31StateAccount)
+			}
+		}
+	}
+	return total
+}
+
+func c31FrameEVM(sdb *state.StateDB) *EVM {
+	cfg := *params.MergedTestChainConfig
+	cfg.AmsterdamTime = new(uint64)
+	ctx := BlockContext{
+		CanTransfer: func(db StateDB, addr common.Address, amount *uint256.Int) bool {
+			return db.GetBalance(addr).Cmp(amount) >= 0
+		},
+		Transfer: func(db StateDB, sender, recipient common.Address, amount *uint256.Int, _ *params.Rules) {
+			db.SubBalance(sender, amount, tracing.BalanceChangeTransfer)
+			db.AddBalance(recipient, amount, tracing.BalanceChangeTransfer)
+		},
+		GetHash:          func(uint64) common.Hash { return common.Hash{} },
+		BlockNumber:      big.NewInt(1),
+		Time:             1,
+		Difficulty:       big.NewInt(0),
+		Random:           &common.Hash{1},
+		BaseFee:          big.NewInt(7),
+		BlobBaseFee:      big.NewInt(1),
+		GasLimit:         60_000_000,
+		CostPerStateByte: params.CostPerStateByte,
+	}
+	return NewEVM(ctx, sdb, &cfg, Config{})
+}
+
+// c31RunFrame executes code at c31Self with the given budget and checks the leftover.
+func c31RunFrame(seq []c31Unit, ending string, E0, S0 uint64, outcome func(string)) error {
+	var code []byte
+	for _, u := range seq {
+		code = append(code, u.code...)
+	}
+	switch ending {
+	case "stop":
+		code = append(code, 0x00)
+	case "revert":
+		code = append(code, 0x60, 0x00, 0x60, 0x00, 0xfd)
+	case "invalid":
+		code = append(code, 0xfe)
+	}
+	sdb, _ := state.New(types.EmptyRootHash, state.NewDatabaseForTesting())
+	put := func(a common.Address, c []byte) {
+		sdb.CreateAccount(a)
+		sdb.SetNonce(a, 1, tracing.NonceChangeGenesis)
+		sdb.SetCode(a, c, tracing.CodeChangeUnspecified)
+	}
+	put(c31Self, code)
+	sdb.AddBalance(c31Self, uint256.NewInt(5), tracing.BalanceChangeUnspecified)
+	put(c31ChildRev, []byte{0x60, 1, 0x60, 1, 0x55, 0x60, 0, 0x60, 0, 0xfd})
+	put(c31ChildInv, []byte{0x60, 1, 0x60, 1, 0x55, 0xfe})
+	put(c31ChildClr, []byte{0x60, 0, 0x60, 1, 0x55, 0x00})
+	put(c31ChildSet, []byte{0x60, 1, 0x60, 2, 0x55, 0x00})
+	// occupied destinations: first CREATE address of self, and the CREATE2 address of the collision unit
+	for _, a := range []common.Address{crypto.CreateAddress(c31Self, 1), crypto.CreateAddress2(c31Self, common.Hash{31: c31CollisionSalt}, crypto.Keccak256(c31InitOK))} {
+		sdb.CreateAccount(a)
+		sdb.SetNonce(a, 1, tracing.NonceChangeGenesis)
+	}
+	sdb.Finalise(params.Rules{IsEIP158: true})
+	evm := c31FrameEVM(sdb)
+	defer evm.Release()
+	initial := NewGasBudget(E0, S0)
+	_, g, err := evm.Call(common.Address{0xca}, c31Self, nil, initial, new(uint256.Int))
+
+	// no field may exceed the initial total (wrap-around), then the identities of the statement
+	T := E0 + S0
+	if g.ExecutionGas > T || g.StateGas > T || g.UsedExecutionGas > T || g.Spilled > T || g.UsedStateGas > int64(T) || g.UsedStateGas < -int64(T) {
+		return fmt.Errorf("leftover %v has a field outside [0, initial total %d] (err=%v)", g, T, err)
+	}
+	if g.ExecutionGas+g.UsedExecutionGas+g.Spilled != E0 {
+		return fmt.Errorf("execution gas not conserved: left %d + used %d + spilled %d != initial %d; leftover %v (err=%v)", g.ExecutionGas, g.UsedExecutionGas, g.Spilled, E0, g, err)
+	}
+	if int64(g.StateGas)+g.UsedStateGas-int64(g.Spilled) != int64(S0) {
+		return fmt.Errorf("reservoir identity broken: StateGas %d + UsedStateGas %d - Spilled %d != initial reservoir %d; leftover %v (err=%v)", g.StateGas, g.UsedStateGas, g.Spilled, S0, g, err)
+	}
+	if int64(g.Used(initial)) != int64(g.UsedExecutionGas)+g.UsedStateGas {
+		return fmt.Errorf("Used(initial)=%d but accumulators are <%d,%d>", g.Used(initial), g.UsedExecutionGas, g.UsedStateGas)
+	}
+	switch {
+	case err == nil:
+		if ending != "stop" {
+			return fmt.Errorf("frame ending in %s succeeded", ending)
+		}
+		if E0 >= 1<<40 {
+			// ample gas: every unit ran to completion, the net state gas is known
+			if want := c31Expect(seq); g.UsedStateGas != want {
+				return fmt.Errorf("net state gas of the frame = %d, reference = %d; leftover %v", g.UsedStateGas, want, g)
+			}
+			switch {
+			case g.Spilled > 0:
+				outcome("frame_ok_spilled")
+			case g.UsedStateGas > 0:
+				outcome("frame_ok_state_from_reservoir")
+			default:
+				outcome("frame_ok_no_state_gas")
+			}
+		} else {
+			outcome("frame_ok_tight_gas")
+		}
+	case err == ErrExecutionReverted:
+		if g.StateGas != S0 || g.UsedStateGas != 0 || g.Spilled != 0 {
+			return fmt.Errorf("reverted frame must hand back the reservoir %d it started with, no spill, no state usage: %v", S0, g)
+		}
+		outcome("frame_reverted")
+	default:
+		if g.StateGas != S0 || g.UsedStateGas != 0 || g.Spilled != 0 || g.ExecutionGas != 0 || g.UsedExecutionGas != E0 {
+			return fmt.Errorf("halted frame (%v) must burn all execution gas and hand back the reservoir %d: %v", err, S0, g)
+		}
+		if E0 >= 1<<40 && ending == "stop" {
+			return fmt.Errorf("frame halted with ample gas: %v", err)
+		}
+		outcome("frame_halted")
+	}
+	return nil
+}
+
+func c31Frames(r *mc.R) {
+	units := c31Units()
+	failing := []int{}
+	for i, u := range units {
+		if u.kind == "create-fail" || u.kind == "create-nobalance" {
+			failing = append(failing, i)
+		}
+	}
+	var Es, Ss []uint64
+	if r.Quick() {
+		Es, Ss = []uint64{1 << 40, 600_000}, []uint64{0, c31StateAccount / 2, 500_000}
+	} else {
+		Es, Ss = []uint64{1 << 40, 600_000, 300_000}, []uint64{0, c31StateAccount / 2, c31StateAccount, 500_000}
+	}
+	type prog struct {
+		seq     []int
+		endings []string
+	}
+	var progs []prog
+	all3 := []string{"stop", "revert", "invalid"}
+	for a := range units {
+		progs = append(progs, prog{[]int{a}, all3})
+		for b := range units {
+			progs = append(progs, prog{[]int{a, b}, all3})
+			if r.Quick() {
+				for _, c := range failing { // a failed creation after every two-unit history
+					progs = append(progs, prog{[]int{a, b, c}, []string{"stop"}})
+				}
+			} else {
+				for c := range units {
+					progs = append(progs, prog{[]int{a, b, c}, all3})
+				}
+			}
+		}
+	}
+	r.Bound("frames.units", len(units))
+	r.Bound("frames.programs", len(progs))
+	r.Bound("frames.budgets_E", fmt.Sprint(Es))
+	r.Bound("frames.budgets_S", fmt.Sprint(Ss))
+	r.Parallel(len(progs), func(pi int) {
+		p := progs[pi]
+		seq := make([]c31Unit, len(p.seq))
+		names := make([]string, len(p.seq))
+		for i, x := range p.seq {
+			seq[i], names[i] = units[x], units[x].name
+		}
+		oc := map[string]int64{}
+		for _, ending := range p.endings {
+			for _, E0 := range Es {
+				for _, S0 := range Ss {
+					c := map[string]any{"part": "evm-frame", "units": names, "ending": ending, "E": E0, "S": S0}
+					r.Case(c, func() error { return c31RunFrame(seq, ending, E0, S0, func(k string) { oc[k]++ }) })
+					r.DistinctHash(mc.Hash64(fmt.Sprint("frame", p.seq, ending, E0, S0)))
+				}
+			}
+		}
+		if pi%997 == 5 {
+			r.Sample(map[string]any{"part": "evm-frame", "units": names})
+		}
+		for k, v := range oc {
+			r.OutcomeN(k, v)
+		}
+	})
 }
